@@ -76,6 +76,12 @@ def encode_header(hdr: str) -> bytes:
             result = Header(hdr).encode(maxlinelen=0).encode("latin-1")
         except UnicodeEncodeError:
             result = hdr.encode("latin-1", errors="replace")
+
+    # This goes out as an IMAP quoted string: backslashes and double quotes
+    # have to be escaped and it can not contain a CR or LF.
+    #
+    result = result.replace(b"\\", b"\\\\").replace(b'"', b'\\"')
+    result = result.replace(b"\r", b" ").replace(b"\n", b" ")
     return b'"' + result + b'"'
 
 
